@@ -522,8 +522,8 @@ pub fn pairs(tier: Tier) -> Vec<(u16, Option<u16>)> {
         vec![(0, None), (1, None), (3, None), (10, None), (60, None), (60, Some(1)), (1, Some(0)), (0, Some(30)), (11, Some(5))]
     } else {
         let mut v = Vec::new();
-        for k in [0u16, 1, 2, 3, 9, 10, 11, 60, 65535] {
-            for s in [None, Some(0u16), Some(1), Some(5), Some(30)] {
+        for k in [0u16, 1, 2, 3, 4, 5, 6, 9, 10, 11, 12, 30, 60, 300, 65535] {
+            for s in [None, Some(0u16), Some(1), Some(2), Some(4), Some(5), Some(6), Some(10), Some(30), Some(65535)] {
                 v.push((k, s));
             }
         }
